@@ -286,5 +286,6 @@ theorem opsPres_posInv (f : FsCfg) (hrs : 0 < f.c.rs) : OpsPres f (PosInvW f.c) 
   move := fun w a b env hw => move_ok f.c hrs w a b env hw
   rebuild := fun w hw => rebuild_ok f hrs w hw
   stuck := fun w hw => stuck_ok f.c w hw
+  unstuck := fun w hw => hw
 
 end Stfs
